@@ -22,13 +22,16 @@ def ReaderOK (f : Buf → Buf) : Prop :=
     (f b).valid ∧ b.ri ≤ (f b).ri ∧ (f b).mem = b.mem ∧ (f b).len = b.len ∧ (f b).wi = b.wi ∧
     (f b).closed = b.closed ∧ (f b).hasPtr = b.hasPtr
 
-/-- The same for a DESTINATION buffer: `wi` not moved back, `ri` untouched, bytes below the old `wi`
-unchanged, `len`, `closed`, `data.ptr` as they were, and nothing is written to a closed buffer. -/
+/-- The same for an open (not closed) DESTINATION buffer: `wi` not moved back, `ri` untouched, bytes
+below the old `wi` unchanged, `len`, `closed`, `data.ptr` as they were. (A closed destination accepts
+nothing — `io2 = iop` at function entry — and an `io_limit` block on it even "restores" `data.len` to
+that `io2`, see the last example of Props/C08IO.lean; the composition theorems below are stated for
+open destinations, the leaf theorem `iobuf_inv_writer` covers closed ones.) -/
 def WriterOK (f : Buf → Buf) : Prop :=
-  ∀ b, b.valid →
+  ∀ b, b.valid → b.closed = false →
     (f b).valid ∧ b.wi ≤ (f b).wi ∧ (f b).ri = b.ri ∧ (∀ i, i < b.wi → (f b).mem[i]? = b.mem[i]?) ∧
     (f b).mem.length = b.mem.length ∧ (f b).len = b.len ∧ (f b).closed = b.closed ∧
-    (f b).hasPtr = b.hasPtr ∧ (b.closed = true → (f b).wi = b.wi)
+    (f b).hasPtr = b.hasPtr
 
 /-- Every callee of a body keeps the contract for the role `w`. -/
 def CalleesOK (w : Bool) : List Step → Prop
@@ -82,8 +85,8 @@ theorem execCall_RInv (b0 : Buf) (hv : b0.valid) (s : St) (f : Buf → Buf) (hf 
     wi := by dsimp only; rw [g5, e2]; exact hwi
     chain := hch }
 
-theorem execCall_WInv (b0 : Buf) (hv : b0.valid) (s : St) (f : Buf → Buf) (hf : WriterOK f)
-    (h : WInv b0 s) : WInv b0 (execCall s f) := by
+theorem execCall_WInv (b0 : Buf) (hv : b0.valid) (hopen : b0.closed = false) (s : St)
+    (f : Buf → Buf) (hf : WriterOK f) (h : WInv b0 s) : WInv b0 (execCall s f) := by
   obtain ⟨hw, hml, hbelow, hri, hwi, hhp, hcl, hsync, hio1, hlo, hhi, hcap, hlenle, hch⟩ := h
   obtain ⟨h1, h2, h3, h4⟩ := hv
   have hb1 : (saveForCall s).valid := by
@@ -91,7 +94,8 @@ theorem execCall_WInv (b0 : Buf) (hv : b0.valid) (s : St) (f : Buf → Buf) (hf 
     simp only [hw, ↓reduceIte]
     refine ⟨by omega, by omega, by omega, ?_⟩
     intro hp; rw [hhp] at hp; have := h4 hp; omega
-  obtain ⟨g1, g2, g3, g4, g5, g6, g7, g8, g9⟩ := hf _ hb1
+  have hc1 : (saveForCall s).closed = false := by simp [saveForCall, hw, hcl, hopen]
+  obtain ⟨g1, g2, g3, g4, g5, g6, g7, g8⟩ := hf _ hb1 hc1
   have e1 : (saveForCall s).wi = s.iop := by simp [saveForCall, hw]
   have e2 : (saveForCall s).ri = s.b.ri := by simp [saveForCall, hw]
   have e3 : (saveForCall s).mem = s.b.mem := by simp [saveForCall, hw]
@@ -125,14 +129,9 @@ theorem execCall_WInv (b0 : Buf) (hv : b0.valid) (s : St) (f : Buf → Buf) (hf 
     hi := by
       dsimp only
       -- the callee's new write index is within the caller's `io2`
-      cases hc : b0.closed
-      · have := hsync hc
-        rw [g6, e4] at v2
-        omega
-      · have hcl' : (saveForCall s).closed = true := by rw [e6, hcl, hc]
-        have := g9 hcl'
-        rw [e1] at this
-        omega
+      have := hsync hopen
+      rw [g6, e4] at v2
+      omega
     cap := by dsimp only; rw [g6, e4]; exact hcap
     lenle := by dsimp only; rw [g6, e4]; exact hlenle
     chain := hch }
@@ -146,14 +145,14 @@ theorem runS_RInv (b0 : Buf) (hv : b0.valid) (l : List Step) (hl : CalleesOK fal
     | prim i => exact ih hl _ (exec_RInv b0 s i h)
     | call f => exact ih hl.2 _ (execCall_RInv b0 hv s f (by simpa using hl.1) h)
 
-theorem runS_WInv (b0 : Buf) (hv : b0.valid) (l : List Step) (hl : CalleesOK true l) (s : St)
-    (h : WInv b0 s) : WInv b0 (runS s l) := by
+theorem runS_WInv (b0 : Buf) (hv : b0.valid) (hopen : b0.closed = false) (l : List Step)
+    (hl : CalleesOK true l) (s : St) (h : WInv b0 s) : WInv b0 (runS s l) := by
   induction l generalizing s with
   | nil => exact h
   | cons x r ih =>
     cases x with
     | prim i => exact ih hl _ (exec_WInv b0 s i h)
-    | call f => exact ih hl.2 _ (execCall_WInv b0 hv s f (by simpa using hl.1) h)
+    | call f => exact ih hl.2 _ (execCall_WInv b0 hv hopen s f (by simpa using hl.1) h)
 
 /-- **iobuf_inv with calls, source side.** A body (or any prefix of one: every exit path) made of
 the modelled reader operations, `io_limit` blocks and calls that pass the source on to callees that
@@ -165,10 +164,11 @@ theorem iobuf_inv_reader_calls (b0 : Buf) (hv : b0.valid) (l : List Step) (hl : 
   reader_final b0 hv _ (runS_RInv b0 hv l hl _ (load_RInv b0 hv))
 
 /-- **iobuf_inv with calls, destination side.** -/
-theorem iobuf_inv_writer_calls (b0 : Buf) (hv : b0.valid) (l : List Step) (hl : CalleesOK true l) :
+theorem iobuf_inv_writer_calls (b0 : Buf) (hv : b0.valid) (hopen : b0.closed = false) (l : List Step)
+    (hl : CalleesOK true l) :
     (callIOS true b0 l).valid ∧ b0.wi ≤ (callIOS true b0 l).wi ∧ (callIOS true b0 l).ri = b0.ri ∧
     (∀ i, i < b0.wi → (callIOS true b0 l).mem[i]? = b0.mem[i]?) ∧ (callIOS true b0 l).len ≤ b0.len :=
-  writer_final b0 hv _ (runS_WInv b0 hv l hl _ (load_WInv b0 hv))
+  writer_final b0 hv _ (runS_WInv b0 hv hopen l hl _ (load_WInv b0 hv))
 
 /-! ### complete `io_limit` blocks: the body is itself a callee that keeps the contract -/
 
@@ -218,7 +218,7 @@ theorem sameS_of_same {a b : St} (h : Same a b) : SameS a b := by
 
 /-- During a body the role never changes and, with valid inputs, the invariant holds; this packages
 what `balancedS_same` needs at a call step. -/
-def InvW (b0 : Buf) (s : St) : Prop := if s.w then WInv b0 s else RInv b0 s
+def InvW (b0 : Buf) (s : St) : Prop := if s.w then (b0.closed = false ∧ WInv b0 s) else RInv b0 s
 
 theorem execStep_InvW (b0 : Buf) (hv : b0.valid) (s : St) (x : Step)
     (hx : CalleesOK s.w [x]) (h : InvW b0 s) : InvW b0 (execStep s x) ∧ (execStep s x).w = s.w := by
@@ -235,11 +235,11 @@ theorem execStep_InvW (b0 : Buf) (hv : b0.valid) (s : St) (x : Step)
   · simp only [hw, ↓reduceIte] at h hx
     cases x with
     | prim i =>
-      have := exec_WInv b0 s i h
-      simp only [execStep, this.w, ↓reduceIte]; exact ⟨this, trivial⟩
+      have := exec_WInv b0 s i h.2
+      simp only [execStep, this.w, ↓reduceIte]; exact ⟨⟨h.1, this⟩, trivial⟩
     | call f =>
-      have := execCall_WInv b0 hv s f (by simpa [CalleesOK] using hx) h
-      simp only [execStep, this.w, ↓reduceIte]; exact ⟨this, trivial⟩
+      have := execCall_WInv b0 hv h.1 s f (by simpa [CalleesOK] using hx) h.2
+      simp only [execStep, this.w, ↓reduceIte]; exact ⟨⟨h.1, this⟩, trivial⟩
 
 theorem runS_InvW (b0 : Buf) (hv : b0.valid) (l : List Step) (s : St) (hl : CalleesOK s.w l)
     (h : InvW b0 s) : InvW b0 (runS s l) ∧ (runS s l).w = s.w := by
@@ -274,13 +274,14 @@ theorem execCall_sameS (b0 : Buf) (hv : b0.valid) (s : St) (f : Buf → Buf)
     · intro _; rw [g5]; simp [saveForCall, hw]
     · rw [g4]; simp [saveForCall, hw]
   · simp only [hw, ↓reduceIte] at h hf
-    obtain ⟨_, hml, hbelow, hri, hwi, hhp, hcl, hsync, hio1, hlo, hhi, hcap, hlenle, hch⟩ := h
+    obtain ⟨hopen, _, hml, hbelow, hri, hwi, hhp, hcl, hsync, hio1, hlo, hhi, hcap, hlenle, hch⟩ := h
     have hb1 : (saveForCall s).valid := by
       unfold saveForCall Buf.valid
       simp only [hw, ↓reduceIte]
       refine ⟨by omega, by omega, by omega, ?_⟩
       intro hp; rw [hhp] at hp; have := h4 hp; omega
-    obtain ⟨g1, g2, g3, g4, g5, g6, g7, g8, g9⟩ := hf _ hb1
+    have hc1 : (saveForCall s).closed = false := by simp [saveForCall, hw, hcl, hopen]
+    obtain ⟨g1, g2, g3, g4, g5, g6, g7, g8⟩ := hf _ hb1 hc1
     unfold execCall loadAfterCall
     constructor <;> dsimp only <;> first | rfl | skip
     · rw [g7]; simp [saveForCall, hw]
@@ -384,14 +385,13 @@ theorem balanced_calls_ReaderOK (l : List Step) (hb : BalancedS l) (hl : Callees
     · exact hhp
     · simp only [hw, Bool.false_eq_true, ↓reduceIte]; exact hhp
 
-/-- **The contract is closed under composition (destination).** The same for an open or closed
-destination buffer; for a closed one nothing is written. -/
-theorem balanced_calls_WriterOK (l : List Step) (hb : BalancedS l) (hl : CalleesOK true l)
-    (hopen : ∀ b : Buf, b.closed = true → b.valid → (callIOS true b l).wi = b.wi ∧ (callIOS true b l).len = b.len) :
+/-- **The contract is closed under composition (destination).** The same for an open destination
+buffer. -/
+theorem balanced_calls_WriterOK (l : List Step) (hb : BalancedS l) (hl : CalleesOK true l) :
     WriterOK (fun b => callIOS true b l) := by
-  intro b0 hv
-  have hinv := iobuf_inv_writer_calls b0 hv l hl
-  have hI := runS_WInv b0 hv l hl _ (load_WInv b0 hv)
+  intro b0 hv hopen
+  have hinv := iobuf_inv_writer_calls b0 hv hopen l hl
+  have hI := runS_WInv b0 hv hopen l hl _ (load_WInv b0 hv)
   obtain ⟨h1, h2, h3, h4⟩ := hv
   have hw0 : (load true b0).w = true := by unfold load; cases b0.hasPtr <;> simp
   have hw : (runS (load true b0) l).w = true := hI.w
@@ -402,30 +402,27 @@ theorem balanced_calls_WriterOK (l : List Step) (hb : BalancedS l) (hl : Callees
     · simp
   obtain ⟨f1, f2, f3, f4⟩ := hfs _ hw
   have hlen : (callIOS true b0 l).len = b0.len := by
-    cases hc : b0.closed
-    · -- open: complete blocks restore `data.len`
-      have hs : Sync (load true b0) := by
-        unfold Sync load
-        cases hp : b0.hasPtr
-        · have := h4 hp
-          simp; omega
-        · simp [hc]
-      have hi : InvW b0 (load true b0) := by
-        unfold InvW; rw [hw0]; simpa using load_WInv b0 ⟨h1, h2, h3, h4⟩
-      obtain ⟨c1, c2, c3, c4, c5, c6, c7, c8⟩ :=
-        balancedS_same b0 ⟨h1, h2, h3, h4⟩ l hb _ (by rw [hw0]; exact hl) hi hs
-      have hl0 : (load true b0).b.len = b0.len := by unfold load; cases b0.hasPtr <;> simp
-      show (finalSave (runS (load true b0) l)).len = b0.len
-      rw [f2, c7, hl0]
-    · exact (hopen b0 hc ⟨h1, h2, h3, h4⟩).2
-  refine ⟨hinv.1, hinv.2.1, hinv.2.2.1, hinv.2.2.2.1, ?_, hlen, ?_, ?_, ?_⟩
+    -- complete blocks restore `data.len`
+    have hs : Sync (load true b0) := by
+      unfold Sync load
+      cases hp : b0.hasPtr
+      · have := h4 hp
+        simp; omega
+      · simp [hopen]
+    have hi : InvW b0 (load true b0) := by
+      unfold InvW; rw [hw0]; simpa using ⟨hopen, load_WInv b0 ⟨h1, h2, h3, h4⟩⟩
+    obtain ⟨c1, c2, c3, c4, c5, c6, c7, c8⟩ :=
+      balancedS_same b0 ⟨h1, h2, h3, h4⟩ l hb _ (by rw [hw0]; exact hl) hi hs
+    have hl0 : (load true b0).b.len = b0.len := by unfold load; cases b0.hasPtr <;> simp
+    show (finalSave (runS (load true b0) l)).len = b0.len
+    rw [f2, c7, hl0]
+  refine ⟨hinv.1, hinv.2.1, hinv.2.2.1, hinv.2.2.2.1, ?_, hlen, ?_, ?_⟩
   · show (finalSave (runS (load true b0) l)).mem.length = b0.mem.length
     rw [f1]; exact hI.memlen
   · show (finalSave (runS (load true b0) l)).closed = b0.closed
     rw [f3]; exact hI.closed
   · show (finalSave (runS (load true b0) l)).hasPtr = b0.hasPtr
     rw [f4]; exact hI.hp
-  · intro hc; exact (hopen b0 hc ⟨h1, h2, h3, h4⟩).1
 
 /-! ### the leaves: bodies made of built-ins only are such callees -/
 
@@ -461,6 +458,13 @@ theorem leaf_ReaderOK (is : List Instr) (hb : Balanced is) : ReaderOK (fun b => 
   have := h b hv
   simpa [callIOS, callIO, runS_prims] using this
 
+/-- … and a writer body of built-ins and complete `io_limit` blocks, on an open destination. -/
+theorem leaf_WriterOK (is : List Instr) (hb : Balanced is) : WriterOK (fun b => callIO true b is) := by
+  have h := balanced_calls_WriterOK (prims is) (balancedS_prims is hb) (calleesOK_prims true is)
+  intro b hv hc
+  have := h b hv hc
+  simpa [callIOS, callIO, runS_prims] using this
+
 /-! ### non-vacuity: a two-level call tree -/
 
 /-- the inner function reads two bytes under a limit; the outer one reads one byte, calls it, then
@@ -481,5 +485,9 @@ needed. -/
 example :
     let bad : Buf → Buf := fun b => callIO false b [.limitBegin 0]
     ¬ (callIOS false srcDemo [.call bad, .prim (.rd 2)]).valid := by decide
+
+/-- a writer passes its destination on: the callee appends two bytes, the caller one more -/
+example : callIOS true dstDemo [.prim (.wr [7]), .call (fun b => callIO true b [.wr [6, 5]]), .prim (.wr [4])] =
+    { dstDemo with mem := [9, 8, 7, 6, 5, 4], wi := 6 } := by decide
 
 end WuffsVerif.Props.C08Call
